@@ -399,7 +399,8 @@ func VF_Air_Ceremony() {
 	if vf.Param("nonces") != "" {
 		roundB := "round-b-identifier"
 		if vf.Symbolic() {
-			vf.Injective("sha256") // stated assumption: SHA-256 is collision-free (the per-round suite seed is sha256(round id || base seed))
+			vf.Injective("schnorr.R") // R = k*G determines the nonce k
+			vf.Injective("sha256")    // stated assumption: SHA-256 is collision-free (the per-round suite seed is sha256(round id || base seed))
 		}
 		nodes[0].vfReopen()
 		if !vfRound(nodes, roundB, t, nil, -1, 0) {
@@ -480,7 +481,9 @@ func VF_Air_Ceremony() {
 			if !ok {
 				return
 			}
-			vf.NoLeak("output-indep-of-secret:sign", res, vfSecrets(nodes)...)
+			if !vfPrefixOnly {
+				vf.NoLeak("output-indep-of-secret:sign", res, vfSecrets(nodes)...)
+			}
 			var req requests.SigningProposalBatchPartialSignRequests
 			if json.Unmarshal(res.ResultMsgs[0].Data, &req) != nil {
 				vf.Assert("signer-signs-expansion", false)
@@ -514,7 +517,9 @@ func VF_Air_Ceremony() {
 		if !ok {
 			return
 		}
-		vf.NoLeak("output-indep-of-secret:reinit", res, vfSecrets(nodes, fresh)...)
+		if !vfPrefixOnly {
+			vf.NoLeak("output-indep-of-secret:reinit", res, vfSecrets(nodes, fresh)...)
+		}
 		got, okp := vfPolyCommits(res.ExtraData, fresh.am)
 		vf.Assert("airgapped-reinit-replays-requests:poly", okp && vf.Eq(got, before.Commits))
 		vf.Assert("airgapped-reinit-replays-requests:keyring", vf.Eq(vfKeyring(fresh.am, round), before))
@@ -525,8 +530,10 @@ func VF_Air_Ceremony() {
 				DKGIdentifier: round, CreatedAt: vf.Time("created.reinit2." + strconv.Itoa(i))})
 			ok2 := err2 == nil && res2.Event == client.OperationProcessed
 			vf.Assert("airgapped-reinit-replays-requests:existing-round", ok2)
-			if ok2 {
+			if ok2 && !vfPrefixOnly {
 				vf.NoLeak("output-indep-of-secret:reinit-existing", res2, vfSecrets(nodes, fresh)...)
+			}
+			if ok2 {
 				got2, okp2 := vfPolyCommits(res2.ExtraData, nodes[0].am)
 				vf.Assert("airgapped-reinit-replays-requests:existing-round", okp2 && vf.Eq(got2, before.Commits))
 			}
